@@ -1156,6 +1156,8 @@ func checkC01(c *Ctx, r *Report) {
 	ruleFalsey(c, r, "falsey", spec)
 	ruleArithMap(c, r, "arith-map")
 	ruleConstPush(c, r, "const-push")
+	r.rule("operand-emission", 6, "the emission primitives write what the VM decodes: emitOp one opcode byte, emitUvarint exactly the bytes uvarintToBytes produced for the operand (a slot, a constant index, a count), emitBytes each byte once: an operand emitted in another form names another slot or constant")
+	checkEmitPrimitives(c, r, "operand-emission")
 	ruleDivZero(c, r, "div-zero", true)
 	ruleCoercion(c, r, "coercion")
 	ruleStringOpaque(c, r, "string-literal-scan")
